@@ -1,10 +1,148 @@
-import JP.Driver
-import JP.Impl.Den
+import JP.Lemmas.MergeImplTop
 
-/-! # Property C02 — theorems (see DESIGN.md §6) -/
+/-!
+# C02 — `MergePatch` computes RFC 7396
+
+All statements are for member names duplicate-free on both sides (`WF` for nodes, `noDup`
+for raw messages); under that hypothesis the model computes the specification with *exact*
+ordered equality, the `Value.eqv` forms are corollaries.
+
+Counterexample without `noDup` (kept out of the theorems): for `c = {"a":1,"a":null}`
+`den (pruneC c) = {"a":null}` but `Spec.merge null c.valueOf = {}` (`#eval` below).
+-/
 
 namespace JP
 namespace C02
+open Value Impl
+
+/-- the recursive merge of a node with a raw patch *is* the specification (ordered equality),
+and the result is well-formed again -/
+theorem mergeNC_refines_eq (cur : Node) (p : Cst) (hc : WF cur = true) (hp : p.valueOf.noDup = true) :
+    WF (mergeNC false cur p) = true ∧
+    den (mergeNC false cur p) = Spec.merge (den cur) p.valueOf :=
+  mergeNC_den p cur hc hp
+
+/-- the requested form, modulo member order (`hn` is not needed) -/
+theorem mergeNC_refines (cur : Node) (p : Cst) (hc : WF cur = true) (hp : p.valueOf.noDup = true)
+    (_hn : p.isNullLit = false) :
+    Value.eqv (den (mergeNC false cur p)) (Spec.merge (den cur) p.valueOf) = true ∧
+    WF (mergeNC false cur p) = true := by
+  have ⟨h1, h2⟩ := mergeNC_den p cur hc hp
+  refine ⟨?_, h1⟩
+  rw [← h2]
+  exact eqv_refl _ (noDup_den _ h1)
+
+/-- `mergeDocs` on a parsed object -/
+theorem mergeDocsC_refines (keys : List Bytes) (ob : NMembers) (pms : List (Bytes × Cst))
+    (hw : WF (.doc keys ob) = true) (hp : (Cst.obj pms).valueOf.noDup = true) :
+    WF (.doc (mergeDocsC false keys ob pms).1 (mergeDocsC false keys ob pms).2) = true ∧
+    den (.doc (mergeDocsC false keys ob pms).1 (mergeDocsC false keys ob pms).2) =
+      .obj (Spec.mergeMs (denM ob) (Cst.valueOfM pms)) := by
+  simp only [Cst.valueOf, noDup, Bool.and_eq_true] at hp
+  have ⟨r1, r2⟩ := mergeDocsC_den pms keys ob hw hp.1 hp.2
+  have ⟨a1, a2, _⟩ := (WF_doc_iff _ _).mp r1
+  exact ⟨r1, by rw [den_doc_wf _ _ a1 a2, r2]⟩
+
+/-- a new object value is stored with its own null members dropped, recursively through
+objects (arrays inside are left untouched — exactly `MergePatch(null, c)`) -/
+theorem pruneC_spec (c : Cst) (h : c.valueOf.noDup = true) :
+    WF (pruneC c) = true ∧ den (pruneC c) = Spec.merge .null c.valueOf :=
+  pruneC_den c h
+
+/-- what the text layer has to provide for a result node `r` -/
+def PrintSpec (c : Cst) : Prop := parseCst (Cst.print c) = some c
+def CstOfSpec (r : Node) : Prop := (cstOf true r).valueOf = den r
+
+/-- whole function on syntax trees: for a well-formed non-null document and any well-formed
+patch (both duplicate-free) `doMergePatch false` succeeds; it returns either the patch text
+itself (non-container patch; then the RFC result is the patch value) or the print of a
+well-formed node whose value is the RFC result -/
+theorem doMergePatch_refines (docData patchData : Bytes) (dc pc : Cst)
+    (hvd : Scanner.valid docData = true) (hvp : Scanner.valid patchData = true)
+    (hd : parseCst docData = some dc) (hp : parseCst patchData = some pc)
+    (hnn : dc.isNullLit = false)
+    (hdd : dc.valueOf.noDup = true) (hdp : pc.valueOf.noDup = true) :
+    ∃ out, doMergePatch false docData patchData = .ok out ∧
+      ((out = patchData ∧ pc.valueOf = Spec.merge dc.valueOf pc.valueOf) ∨
+       (∃ r, out = Cst.print (cstOf true r) ∧ WF r = true ∧
+          den r = Spec.merge dc.valueOf pc.valueOf)) := by
+  rw [doMergePatch_eq docData patchData dc pc hvd hvp hd hp hnn]
+  refine ⟨_, rfl, ?_⟩
+  cases hpn : pc.isNullLit with
+  | true =>
+    left
+    rw [(isNullLit_iff pc).mp hpn]
+    exact ⟨by simp, by simp [Cst.valueOf, Cst.litValue, Spec.merge]⟩
+  | false =>
+    have := mergeTree_den dc pc hdd hdp
+    cases hm : mergeTree dc pc with
+    | none => rw [hm] at this; left; exact ⟨by simp, this⟩
+    | some r => rw [hm] at this; right; exact ⟨r, by simp, this.1, this.2⟩
+
+/-- with the text layer: the output parses to the RFC 7396 result -/
+theorem mergePatch_value (docData patchData : Bytes) (dc pc : Cst)
+    (hvd : Scanner.valid docData = true) (hvp : Scanner.valid patchData = true)
+    (hd : parseCst docData = some dc) (hp : parseCst patchData = some pc)
+    (hnn : dc.isNullLit = false)
+    (hdd : dc.valueOf.noDup = true) (hdp : pc.valueOf.noDup = true)
+    (htext : ∀ r, WF r = true → den r = Spec.merge dc.valueOf pc.valueOf →
+      PrintSpec (cstOf true r) ∧ CstOfSpec r) :
+    ∃ out, mergePatch docData patchData = .ok out ∧
+      parseValueOf out = some (Spec.merge dc.valueOf pc.valueOf) := by
+  obtain ⟨out, h1, h2⟩ := doMergePatch_refines docData patchData dc pc hvd hvp hd hp hnn hdd hdp
+  refine ⟨out, h1, ?_⟩
+  rcases h2 with ⟨e, hv⟩ | ⟨r, e, hw, hv⟩
+  · rw [e]; simp only [parseValueOf, hp, Option.map_some]; rw [← hv]
+  · have ⟨p1, p2⟩ := htext r hw hv
+    rw [e]; simp only [parseValueOf]
+    rw [p1]; simp only [Option.map_some]; rw [p2, hv]
+
+/-- the error outcomes of `doMergePatch` -/
+theorem doMergePatch_errors (mm : Bool) (docData patchData : Bytes) :
+    (Scanner.valid docData = false → doMergePatch mm docData patchData = .err .badDoc) ∧
+    (Scanner.valid docData = true → Scanner.valid patchData = false →
+      doMergePatch mm docData patchData = .err .badPatch) ∧
+    (∀ dc pc, Scanner.valid docData = true → Scanner.valid patchData = true →
+      parseCst docData = some dc → parseCst patchData = some pc → dc.isNullLit = true →
+      doMergePatch mm docData patchData = .err .badDoc) := by
+  refine ⟨?_, ?_, ?_⟩
+  · intro h; simp [doMergePatch, h]
+  · intro h1 h2; simp [doMergePatch, h1, h2]
+  · intro dc pc h1 h2 h3 h4 h5; simp [doMergePatch, h1, h2, h3, h4, h5]
+
+/-! ### the hypotheses are satisfiable -/
+
+/-- `{"a":{"b":1,"c":null},"d":[null],"e":2}` -/
+def exDoc : Cst := .obj [(ascii "a", .obj [(ascii "b", .lit (ascii "1")), (ascii "c", .lit (ascii "null"))]),
+  (ascii "d", .arr [.lit (ascii "null")]), (ascii "e", .lit (ascii "2"))]
+/-- `{"a":{"b":null,"x":{"y":null,"z":3}},"e":null,"f":{"g":null}}` -/
+def exPatch : Cst := .obj [(ascii "a", .obj [(ascii "b", .lit (ascii "null")),
+    (ascii "x", .obj [(ascii "y", .lit (ascii "null")), (ascii "z", .lit (ascii "3"))])]),
+  (ascii "e", .lit (ascii "null")), (ascii "f", .obj [(ascii "g", .lit (ascii "null"))])]
+
+example : WF (.raw exDoc) = true ∧ exPatch.valueOf.noDup = true ∧ exPatch.isNullLit = false := by decide
+example : WF (decodeDoc [(ascii "a", .lit (ascii "1"))]) = true ∧ (Cst.obj [(ascii "a", .lit (ascii "null"))]).valueOf.noDup = true := by decide
+example : exPatch.valueOf.noDup = true := by decide
+example : Scanner.valid (Cst.print exDoc) = true ∧ Scanner.valid (Cst.print exPatch) = true ∧
+    parseCst (Cst.print exDoc) = some exDoc ∧ parseCst (Cst.print exPatch) = some exPatch ∧
+    exDoc.isNullLit = false ∧ exDoc.valueOf.noDup = true :=
+  ⟨by decide, by decide, rfl, rfl, by decide, by decide⟩
+/-- and the result on the example is what one expects: `{"a":{"c":null,"x":{"z":3}},"d":[null],"f":{}}` -/
+example : den (mergeNC false (.raw exDoc) exPatch) =
+    .obj [(ascii "a", .obj [(ascii "c", .null), (ascii "x", .obj [(ascii "z", .num (ascii "3"))])]),
+          (ascii "d", .arr [.null]), (ascii "f", .obj [])] := rfl
+
+/-- the counterexample to `pruneC_spec` without `noDup`: `{"a":1,"a":null}` -/
+def exDup : Cst := .obj [(ascii "a", .lit (ascii "1")), (ascii "a", .lit (ascii "null"))]
+example : den (pruneC exDup) = .obj [(ascii "a", .null)] ∧ Spec.merge .null exDup.valueOf = .obj [] := ⟨rfl, rfl⟩
+
+-- #print axioms mergeNC_refines_eq
+-- #print axioms mergeNC_refines
+-- #print axioms mergeDocsC_refines
+-- #print axioms pruneC_spec
+-- #print axioms doMergePatch_refines
+-- #print axioms mergePatch_value
+-- #print axioms doMergePatch_errors
 
 end C02
 end JP
